@@ -42,6 +42,11 @@ def check(ctx):
              "measured against — every panic-capable operation there is discharged")
     from . import C01
     ctx.guard("C11-F", C01.rule_a, "C11-F", lambda b: b.span.startswith("src/render/text_renderer.rs"))
+    ctx.rule("C11-G", "errors are never swallowed: the result of every call that returns the crate's Result (Error / TooNarrow) is "
+             "propagated with `?` or returned as it is — the non-interference argument of C11-C (a rendering that succeeds without "
+             "the option never took a not-allowed edge) needs every TooNarrow to reach the caller; a handled one would let the "
+             "option change a rendering that succeeds either way")
+    ctx.guard("C11-G", rule_g)
 
 
 def rule_a_as(ctx, rid):
@@ -299,6 +304,45 @@ def rule_c(ctx):
                     ctx.violation("C11-C", key + ":use-as-%s" % kind, s, b.id,
                                   "the overflow flag may only be branched on or copied; found use as %s" % kind)
     ctx.floor("C11-C", "decision reads of the overflow flag", ndec, 2)
+
+
+SWALLOW_OK = {
+    ("css::dom_extract::dom_to_stylesheet", "add_author_css"): "document style sheets that do not parse are ignored by design (C17-E); css errors are not width errors",
+    ("css::StyleData::computed_style", "parse_style_attribute"): "a style attribute that does not parse is ignored by design (C17-E)",
+}
+
+
+def rule_g(ctx):
+    F = ctx.facts
+    n = 0
+    for b in F.bodies.values():
+        if b.raw.get("from_expansion") and b.kind != "Closure":
+            continue
+        for bb, t in b.calls():
+            if t["dest"]["p"] or callee_method(t) == "from_residual":
+                continue
+            ty = b.local_ty(t["dest"]["l"])
+            if not (ty.startswith("std::result::Result<") and (ty.endswith(", Error>") or ty.endswith(", render::TooNarrow>"))):
+                continue
+            n += 1
+            if t["dest"]["l"] == 0:
+                continue  # returned as it is
+            uses = final_uses(b, t["dest"]["l"])
+            kinds = sorted({("call:%s" % callee_method(d[0])) if k == "callarg" else k for k, _ubb, d in uses})
+            if kinds and all(k in ("call:branch", "ret") for k in kinds):
+                continue
+            root = b.root if b.kind == "Closure" else b.id
+            nm = (callee_def(t) or "?").split("::")[-1]
+            why = SWALLOW_OK.get((root, nm))
+            key = "swallowed@%s:%s" % (fn_key(b), nm)
+            if why:
+                ctx.ok("C11-G", key, t["span"], b.id, why, how="table")
+            else:
+                ctx.violation("C11-G", key, t["span"], b.id,
+                              "the Result of %s is %s instead of being propagated: if the error is TooNarrow, the rendering goes "
+                              "on along a path that exists only without allow_width_overflow, so the option changes a rendering "
+                              "that succeeds with and without it" % (nm, ", ".join(kinds) if kinds else "dropped"))
+    ctx.floor("C11-G", "calls returning the crate's Result", n, 100)
 
 
 def rule_d(ctx):
